@@ -14,6 +14,7 @@ func init() {
 		ID:   "C01",
 		Rule: "one case = one rtp.Packet value built through the public API (fixed fields, CSRC count, extension configuration, payload length, padding); distinct choice paths build distinct values; non-trivial = the packet carries an extension block or RTP padding",
 		Assumptions: []string{
+			"every value of the first two header octets (version x P x X x CC x marker x payload type = 65536 packets, with the CSRC entries, the padding and the extension block that the bits announce)",
 			"layout dimensions (CSRC count {0,1,2,15}, extension configuration, payload length {0..5,100,1200}, padding {none,1,2,4,255}) are taken in full product; fixed header fields are taken from 4 presets in the layout product and in full product of their own alphabets over 8 representative layouts",
 			"one-byte blocks: 0-3 elements with ids from {1,2,7,14} and lengths {1,2,3,4,15,16}, plus the full 14-element block; two-byte blocks: 0-3 elements, ids {1,14,15,16,255}, lengths {0,1,2,3,16,17,254,255}; legacy: 5 profiles x {0,1,2,64} words (quick tier: 3-element blocks use 3-value alphabets)",
 			"two-element blocks over the complete ranges: one-byte ids 1-14 (ordered pairs) x every length 1-16 for both; two-byte ids from {1,2,15,16,127,128,254,255} x lengths {0,1,15,16,17,127,128,254,255} for both; x CSRC {0,15} x payload {0,5} x padding {none,2}",
@@ -22,6 +23,7 @@ func init() {
 		Scenarios: []mc.Scenario{
 			{Name: "layout-product", Tiers: "qt", ShardDepth: 4, Run: c01Layout},
 			{Name: "fixed-fields-product", Tiers: "qt", ShardDepth: 3, Run: c01Fixed},
+			{Name: "every-first-two-octets", Tiers: "qt", ShardDepth: 3, Run: c01FirstOctets},
 			{Name: "many-elements-large-payloads", Tiers: "qt", ShardDepth: 3, Run: c01Large},
 			{Name: "two-elements-full-id-and-length-ranges", Tiers: "qt", ShardDepth: 3, Run: c01Pairs},
 		},
@@ -300,4 +302,39 @@ func c01Pairs(c *mc.Ctx) {
 	w.w.CSRC = p.CSRC
 	w.w.Payload = clone(p.Payload)
 	c01Oracle(c, p, w)
+}
+
+// c01FirstWire builds the packet for one value of the first two header octets: version, P (one
+// padding byte... of size 2), X (a one-byte block with one element), CC CSRC entries, marker
+// and payload type - all 65536 combinations.
+func c01FirstWire(b0, b1 int) (*rtp.Packet, *wireBox) {
+	f := fixedFields{version: uint8(b0 >> 6), marker: b1&0x80 != 0, pt: uint8(b1 & 0x7F), seq: 0x1234, ts: 0x01020304, ssrc: 0xCAFEBABE}
+	p := &rtp.Packet{}
+	p.Version, p.Marker, p.PayloadType, p.SequenceNumber, p.Timestamp, p.SSRC = f.version, f.marker, f.pt, f.seq, f.ts, f.ssrc
+	w := newWire(f)
+	for i := 0; i < b0&0x0F; i++ {
+		p.CSRC = append(p.CSRC, uint32(0x01010101*(i+1)))
+	}
+	if b0&0x10 != 0 {
+		w.setProfile(0xBEDE)
+		_ = p.SetExtension(3, []byte{0xA1, 0xA2})
+		w.addElem(3, []byte{0xA1, 0xA2})
+	}
+	p.Payload = []byte{0x51, 0x52, 0x53}
+	if b0&0x20 != 0 {
+		p.Padding, p.PaddingSize = true, 2
+		w.w.PadSize = 2
+	}
+	w.w.CSRC = p.CSRC
+	w.w.Payload = p.Payload
+	return p, w
+}
+
+func c01FirstOctets(c *mc.Ctx) {
+	b0 := c.Pick(256)
+	for b1 := 0; b1 < 256; b1++ {
+		p, w := c01FirstWire(b0, b1)
+		c01Oracle(c, p, w)
+	}
+	c.Cases(255)
 }
